@@ -124,7 +124,81 @@ def _flip(data: bytes, bit: int) -> bytes:
     return bytes(b)
 
 
+P09 = "C09"
+_CHECKS = ("OP_CHECKSIG", "OP_CHECKSIGVERIFY", "OP_CHECKSIGADD")
+
+
+def _codesep_leaf(ctx: Ctx) -> None:
+    """C09, BIP342's extension: a tapleaf that runs OP_CODESEPARATORs between its signature checks -- behind op codes
+    the engine expands (CHECKSIGVERIFY, CHECKSIGADD, NUMEQUALVERIFY) and behind pushes -- is spent with signatures made
+    over the digest AS THE TEXT DEFINES IT (`ref/sighash.bip341`, extension = leaf hash, key version 0, the op-code
+    position of the last separator executed): the engine, which works the position out for itself, accepts them; a
+    signature made for another position it refuses."""
+    from btclib.ecc import ssa  # noqa: PLC0415
+    from btclib.script import sig_hash  # noqa: PLC0415
+
+    from btcsim.ref import sighash as ref_sighash  # noqa: PLC0415
+
+    ch = ctx.ch
+    st.set_backend(bool(ch.draw(3, "backend0")) and st.bindings_installed())
+    qs = [gk.scalar(ch, "cs.key") for _ in range(2)]
+    xs = [gk.xonly(q) for q in qs]
+    # the script: 2-4 signature checks over the two keys, separators and fillers drawn in between
+    cmds: list[Any] = []
+    checks: list[tuple[int, int]] = []  # (which key, position of the last separator executed before it)
+    last = 0xFFFFFFFF
+    n_checks = 2 + ch.draw(3, "cs.checks")
+    for k in range(n_checks):
+        for _ in range(ch.draw(3, "cs.fill")):
+            filler = ch.pick([["OP_CODESEPARATOR"], ["OP_CODESEPARATOR"], ["OP_NOP"], ["OP_1", "OP_VERIFY"], ["OP_1", "OP_1", "OP_NUMEQUALVERIFY"], [b"\xab" * 3, "OP_DROP"]], "cs.filler")
+            for c in filler:
+                if c == "OP_CODESEPARATOR":
+                    last = len(cmds)
+                cmds.append(c)
+        who = ch.draw(2, "cs.who")
+        cmds += [xs[who].hex(), "OP_CHECKSIGVERIFY" if k + 1 < n_checks else "OP_CHECKSIG"]
+        checks.append((who, last))
+    script = taproot.serialize(cmds)
+    tree = [(0xC0, cmds)]
+    internal = b"\x02" + gk.xonly(gk.scalar(ch, "cs.internal"))
+    with ctx.must_succeed(P09, "direct-digest-computes", "codesep-leaf"):
+        q, _ = taproot.output_pubkey(internal, tree)
+        _, control = taproot.input_script_sig(internal, tree, 0)
+    lh = taproot.leaf_hash(0xC0, script)
+    prevouts = [TxOut(10_000, b"\x51\x20" + q)]
+    tx = Tx(2, ch.pick([0, 500_000], "cs.locktime"), [TxIn(OutPoint(ch.nbytes(32, "cs.txid"), 1), b"", 0xFFFFFFFD)], [TxOut(9_000, b"\x00\x14" + bytes(20))])
+    ht = ch.pick([0, 1, 3, 0x81, 0x83, 2], "cs.ht")
+    wrong = ch.draw(n_checks + 2, "cs.wrong")  # which check (if any) gets a signature for another separator position
+    sigs = []
+    for k, (who, pos) in enumerate(checks):
+        if k == wrong:
+            pos = {0xFFFFFFFF: 0}.get(pos, pos + 1 + ch.draw(3, "cs.off"))
+            ctx.fault("signature-for-another-codeseparator-position")
+        ext = lh + b"\x00" + pos.to_bytes(4, "little")
+        digest = ref_sighash.bip341(tx, 0, prevouts, ht, 1, b"", ext)
+        lib = sig_hash.taproot(tx, 0, prevouts, ht, 1, b"", ext)
+        ctx.check(P09, "direct-equals-definition", lib == digest, lambda: f"tapleaf extension with separator position {pos:#x}: direct {lib.hex()} != transcription {digest.hex()}", site="codesep-leaf")
+        sig = ssa.sign_(digest, qs[who], ch.nbytes(32, "cs.aux")).serialize()
+        sigs.append(sig + (bytes([ht]) if ht else b""))
+    tx.vin[0].script_witness = Witness([*reversed(sigs), script, control])
+    ctx.log("codesep-leaf", len(cmds), [hex(p) for _, p in checks], f"ht={ht}", f"wrong={wrong if wrong < n_checks else None}")
+    ctx.state(f"codesep:{n_checks}:{sum(1 for c in cmds if c == 'OP_CODESEPARATOR')}:{wrong < n_checks}")
+    try:
+        verify_input(prevouts, tx, 0)
+        verdict = "accepted"
+    except LIB as e:
+        verdict = f"refused {type(e).__name__}: {e}"[:160]
+    if wrong < n_checks:
+        ctx.check(P09, "engine-refuses-signature-for-another-position", verdict.startswith("refused"), lambda: f"{cmds}: check {wrong} signed for another separator position, the engine {verdict}", site="codesep-leaf")
+    else:
+        ctx.check(P09, "engine-accepts-signatures-over-defined-digest", verdict == "accepted", lambda: f"{cmds} (separator positions {[hex(p) for _, p in checks]}, type {ht}): the engine {verdict}", site="codesep-leaf")
+        ctx.probe(f"codesep-leaf-accepted:{sum(1 for c in cmds if c == 'OP_CODESEPARATOR')}")
+
+
 def run(ctx: Ctx) -> None:
+    if ctx.cfg.get("part") == "codesep":
+        _codesep_leaf(ctx)
+        return
     ch = ctx.ch
     faulty = bool(ctx.cfg.get("faults"))
     SimRng(ctx, mode=ch.pick(["uniform", "edge"], "rng.mode")).install()
@@ -362,6 +436,16 @@ def _plans(tier: str) -> list[Plan]:
 
 
 CHECKS = {
+    "C09": {
+        "level": "exploration",
+        "plans": lambda tier: [Plan("taptree", {"part": "codesep"}, share=0.5, chunk=40, label="taptree/codeseparator-leaf")],
+        "rule": (
+            "taptree/codeseparator-leaf: one evaluation = one drawn tapleaf of 2-4 signature checks with OP_CODESEPARATORs, expanding "
+            "op codes and pushes drawn in between, spent with signatures made over the transcribed BIP341/342 digest for the separator "
+            "position each check sees; the engine accepts, and refuses a signature made for another position."
+        ),
+        "assumptions": ["btcsim/ref/sighash.py is the oracle for the digest; the engine derives the separator position itself"],
+    },
     "C12": {
         "level": "exploration",
         "plans": _plans,
